@@ -935,7 +935,29 @@ func (ex *Exec) sliceOp(st *State, x *ssa.Slice) *Val {
 		isString = true
 	}
 	if isString {
-		panic(oos("string slicing"))
+		// s[lo:hi]: a string value with the selected bytes (substr is an uninterpreted function with
+		// its length and character axioms instantiated here)
+		n := ex.strLen(base.T)
+		lo := ex.intConst(0)
+		hi := n
+		if x.Low != nil {
+			lo = ex.idxTerm(st, x.Low)
+		}
+		if x.High != nil {
+			hi = ex.idxTerm(st, x.High)
+		}
+		goal := And(ex.sle(ex.intConst(0), lo), ex.sle(lo, hi), ex.sle(hi, n))
+		ex.check(st, "bounds", ex.site("bounds:slice", x), goal, "string slice bounds out of range", ex.pos(x))
+		st.assume(goal)
+		sub := ex.env.d.Func("substr", ex.strSort(), ex.strSort(), ex.env.IntS(), ex.env.IntS())
+		r := ex.env.d.Apply(sub.Name, base.T, lo, hi)
+		st.assume(Eq(ex.strLen(r), ex.isub(hi, lo)))
+		at := ex.env.d.Func("str_at", SBV8, ex.strSort(), ex.env.IntS())
+		i := Sym(fmt.Sprintf("i!ss%d", ex.nfresh), ex.env.IntS())
+		ex.nfresh++
+		st.assume(Forall([]*Term{i}, Implies(And(ex.sle(ex.intConst(0), i), ex.slt(i, ex.isub(hi, lo))),
+			Eq(ex.env.d.Apply(at.Name, r, i), ex.env.d.Apply(at.Name, base.T, ex.iadd(lo, i)))), []*Term{ex.env.d.Apply(at.Name, r, i)}))
+		return scalar(r)
 	}
 	lo := ex.intConst(0)
 	hi := sl.Len
